@@ -8,10 +8,6 @@ import WcModel.Model.Norm
 namespace WcModel.Driver.Lists
 open WcModel.Proto WcModel.Norm
 
-/-- value of a Unicode decimal digit, from the generated table of Nd-block zeros -/
-def decOf (c : Char) : Option Nat :=
-  (Gen.decimalZeros.find? (fun z => z ≤ c.toNat && c.toNat < z + 10)).map (c.toNat - ·)
-
 /-- `name:<enc>:<enc char | ->` -/
 def decLookupEntry (s : String) : Option (List Char × Option Char) :=
   match s.splitOn ":" with
@@ -28,20 +24,16 @@ def errName : NormErr → String
   | .key => "KeyError"
   | .surrogate => "Surrogate"
 
-/-- `norm <isBytes> <normalize> <raw> <uniDigits> <pattern> [name:<n>:<c|->]…` → `ok <text>` | `err <kind>`
-    (`uniDigits` = 1: non-ASCII Unicode decimal digits count as hex digits, as in the code;
-     0: ASCII only, as in the specification) -/
+/-- `norm <isBytes> <normalize> <raw> <pattern> [name:<n>:<c|->]…` → `ok <text>` | `err <kind>` -/
 def handleNorm : List String → Option String
-  | b :: nz :: rw :: ud :: p :: tbl => do
+  | b :: nz :: rw :: p :: tbl => do
     let isBytes ← decBool b
     let normalize ← decBool nz
     let raw ← decBool rw
-    let uni ← decBool ud
     let pat ← decStr p
     let entries ← tbl.mapM decLookupEntry
     let cfg : Norm.Cfg := { isBytes := isBytes, normalize := normalize, raw := raw,
-                            lookup := fun n => (entries.lookup n).join,
-                            dec := if uni then decOf else fun _ => none }
+                            lookup := fun n => (entries.lookup n).join }
     match normPattern cfg pat with
     | .ok out => pure s!"ok {encStr out}"
     | .error e => pure s!"err {errName e}"
